@@ -259,6 +259,10 @@ func recursiveSearchFuncs(c *Ctx, m *searchModel) []*ssa.Function {
 				}
 			}
 		}
+		if pushes && !selfCalls && fn.Signature.Recv() != nil {
+			// recursion through a helper method of the same run object (the child search split off)
+			selfCalls = reachesSelfViaMethods(fn, fn, map[*ssa.Function]bool{})
+		}
 		if pushes && selfCalls {
 			res = append(res, fn)
 		}
@@ -337,11 +341,44 @@ func (m *searchModel) reaches(from, target *ssa.Function, seen map[*ssa.Function
 				if f == target {
 					return true
 				}
+				if f == m.self || m.children[f] {
+					continue // a child search: modelled as an event, not followed
+				}
 				r1, r2 := f.Signature.Recv(), from.Signature.Recv()
 				if r1 != nil && r2 != nil && f.Pkg == from.Pkg && types.Identical(r1.Type(), r2.Type()) && f.Blocks != nil {
 					if m.reaches(f, target, seen) {
 						return true
 					}
+				}
+			}
+		}
+	}
+	return false
+}
+
+// reachesSelfViaMethods: from reaches target through methods of the same receiver type in the same package.
+func reachesSelfViaMethods(from, target *ssa.Function, seen map[*ssa.Function]bool) bool {
+	if seen[from] {
+		return false
+	}
+	seen[from] = true
+	for _, b := range from.Blocks {
+		for _, ins := range b.Instrs {
+			call, ok := ins.(ssa.CallInstruction)
+			if !ok {
+				continue
+			}
+			f := call.Common().StaticCallee()
+			if f == nil || f.Blocks == nil {
+				continue
+			}
+			if f == target && from != target {
+				return true
+			}
+			r1, r2 := f.Signature.Recv(), target.Signature.Recv()
+			if f != target && r1 != nil && r2 != nil && f.Pkg == target.Pkg && types.Identical(r1.Type(), r2.Type()) {
+				if reachesSelfViaMethods(f, target, seen) {
+					return true
 				}
 			}
 		}
